@@ -170,6 +170,9 @@ class LibRDEngine(RDEngineBase) :
             reactions.append(rr)
 
         environments = script.system.network.environments
+        for e in script.system.space.get_cell_env_array() :
+            if int(e) < 0 or int(e) >= len(environments) :
+                raise ValueError("cell environment index "+str(int(e))+" does not refer to one of the "+str(len(environments))+" environments of the network.")
         
         if type(script.system.space) == RDGridSpace :
             self._setup_grid(script, units_system, species, reactions, environments)
